@@ -64,14 +64,23 @@ Proof.
   - unfold ucs2_decode_partial. destruct (units_decode_partial _); ok_leaf.
 Qed.
 
+Lemma okerr_scan_ies fuel : forall raw pos end_ acc, okerr (scan_ies fuel raw pos end_ acc).
+Proof.
+  induction fuel as [|f IH]; intros; cbn [scan_ies]; [ok_leaf|].
+  destruct (Nat.ltb pos end_); [|ok_leaf].
+  apply okerr_bind; [apply okerr_unpackB|]. intros ie _. apply okerr_bind; [apply okerr_unpackB|]. intros len _.
+  apply okerr_bind; [|intros; apply IH].
+  destruct ((ie =? IE_ID_16BIT) && (len =? 4)).
+  - apply okerr_bind; [apply okerr_unpackH|]. intros; apply okerr_bind; [apply okerr_unpackB|]. intros; apply okerr_bind; [apply okerr_unpackB|]. intros; ok_leaf.
+  - destruct ((ie =? IE_ID_8BIT) && (len =? 3)); [|ok_leaf].
+    apply okerr_bind; [apply okerr_unpackB|]. intros; apply okerr_bind; [apply okerr_unpackB|]. intros; apply okerr_bind; [apply okerr_unpackB|]. intros; ok_leaf.
+Qed.
+
 Lemma okerr_decode_message esm codec raw : okerr (decode_message esm codec raw).
 Proof.
   unfold decode_message. destruct (_ && _).
-  - apply okerr_bind; [apply okerr_unpackB|]. intros udh _. apply okerr_bind; [apply okerr_unpackB|]. intros ie _.
-    apply okerr_bind.
-    + destruct (ie =? IE_ID_16BIT); (apply okerr_bind; [first [apply okerr_unpackH|apply okerr_unpackB]|intros; ok_leaf]).
-    + intros [rf ind] _. apply okerr_bind; [apply okerr_unpackB|]. intros tot _. apply okerr_bind; [apply okerr_unpackB|]. intros sq _.
-      apply okerr_bind; [apply okerr_codec_decode|]. intros; ok_leaf.
+  - apply okerr_bind; [apply okerr_unpackB|]. intros udh _. apply okerr_bind; [apply okerr_scan_ies|]. intros found _.
+    apply okerr_bind; [apply okerr_codec_decode|]. intros; ok_leaf.
   - apply okerr_bind; [apply okerr_codec_decode|]. intros; ok_leaf.
 Qed.
 
